@@ -1,5 +1,7 @@
 """C05 — variable bounds and initial conditions are imposed exactly as given."""
 import json
+import os
+from fractions import Fraction
 
 from .. import core, tr, trcheck
 
@@ -46,3 +48,86 @@ def run(ctx):
         elif idr:
             ctx.violation("bounds/initial-derivative-rows", {"spec": s, "differences": idr[:4]},
                           what="initial condition rows differ: %s" % json.dumps(idr[0], default=str)[:300])
+
+
+# ---- controls that are not shared by the members; bounds that arrive through the I/O mixins ------------------
+def member_control_boxes(ctx):
+    """scenario trees / PlanningMixin: every control entry of every member carries the user's bounds and the
+    member's own history pin at t0 (cases and oracle shared with C07)"""
+    from . import c07
+    cases = c07.dup_tree_cases()[:4]
+    for i, c in enumerate(c07.dup_tree_cases()[4:10]):
+        c = dict(c, mode=["planning_only", "tree"][i % 2], planning=True)
+        cases.append(c)
+    for c in cases:
+        try:
+            idx, branches, sidx, nx = c07.observe_tree(c)
+        except Exception as e:  # noqa: BLE001
+            ctx.count("tree_box_exception_" + type(e).__name__)
+            continue
+        lbx, ubx = c07.observe_tree.boxes
+        ctx.count("member_control_box_cases")
+        ctx.case_done(core.fingerprint(["tree-boxes", c["mode"], c["planning"], c["E"], c["seg_lens"]]), True)
+        probs = c07.box_problems(c, idx, lbx, ubx)
+        if probs:
+            ctx.violation("bounds/control-entries", {"case": c, "problems": probs[:6]},
+                          what="a control entry of an ensemble member is not boxed as given: %s" % probs[0])
+
+
+def io_bound_series(ctx):
+    """<var>_Min / <var>_Max series read by the I/O mixins, also when only one side is given (cases and oracle
+    shared with C12)"""
+    import random
+    from concurrent.futures import ProcessPoolExecutor
+    from . import c12
+    r2 = random.Random(505)
+    specs = []
+    for i in range(ctx.n(6, 60)):
+        c = c12.gen_case(r2, "opt", "csv")
+        c["ops"] = []
+        c.pop("initial_state", None)
+        s0 = c["series"]["0"]
+        # one-sided: an upper series without a lower one and the other way round
+        for nm in (("u_Min",), ("u_Max",), ("u_Min", "x_Max"))[i % 3]:
+            for m in c["series"]:
+                c["series"][m].pop(nm, None)
+        if i % 3 == 0 and "u_Max" not in s0:
+            for m in c["series"]:
+                c["series"][m]["u_Max"] = [str(Fraction(2 + (k % 3), 2)) for k in range(len(c["axis"]))]
+        if i % 3 == 1 and "u_Min" not in s0:
+            for m in c["series"]:
+                c["series"][m]["u_Min"] = [str(Fraction(-2 - (k % 3), 2)) for k in range(len(c["axis"]))]
+        specs.append(c)
+    with ProcessPoolExecutor(max_workers=6) as ex:
+        results = list(ex.map(c12.safe_run, specs))
+    for spec, res in zip(specs, results):
+        ctx.count("io_bound_cases")
+        ctx.case_done(core.fingerprint(["io-bounds", sorted(k for k in spec["series"]["0"] if "_M" in k), len(spec["axis"])]), True)
+        if "error" in res:
+            ctx.count("io_bound_case_exception")
+            continue
+        terms, keys = c12.case_terms(spec)
+        vals = core.eval_terms(ID + "io", ["Xq", "TimeAxis"], terms)
+        bad = [b for b in c12.compare(ctx, spec, res, vals, keys) if b[0] == "bounds"]
+        # a side for which no series is given is the declared bound alone
+        decl = {"u": (-4.0, 4.0), "x": (-50.0, 50.0)}
+        for var in ("u", "x"):
+            for k, side in enumerate(("Min", "Max")):
+                if "%s_%s" % (var, side) not in spec["series"]["0"]:
+                    got = res["bounds"][var][k]
+                    vals_ = got[1] if isinstance(got, list) else [got]
+                    if any(abs(float(v) - decl[var][k]) > 1e-12 for v in vals_ if not isinstance(v, str)):
+                        bad.append(("bounds", ["%s_%s absent" % (var, side), got], decl[var][k]))
+        if bad:
+            ctx.violation("bounds/io-series", {"spec": spec, "impl": bad[0][1], "expected": bad[0][2]},
+                          what="bounds read from the input series: implementation %s, expected %s" % (str(bad[0][1])[:160], str(bad[0][2])[:160]))
+
+
+_run_core = run
+
+
+def run(ctx):  # noqa: F811
+    _run_core(ctx)
+    if not os.environ.get("VERIF_REPLAY"):
+        member_control_boxes(ctx)
+        io_bound_series(ctx)
